@@ -234,7 +234,26 @@ def rule_hold_counter(ctx):
         ctx.check(".hold()" in src, dh.fq, "the hold request reaches Step.hold of the calling step", "hold request no longer increments the counter", "hold()")
 
 
+def rule_claims_replaced(ctx):
+    """R-C12-7: set_resources replaces the claims of a step: the old rows go, the declared ones come.
+
+    The dispatch predicate sums step_resource rows of RUNNING steps.  Rows of an earlier declaration that stay
+    behind keep counting against the pool (or collide with the new rows), rows that are not written let the
+    step run outside its declared claim.
+    """
+    sr = ctx.prog.func("step.Step.set_resources")
+    stmts = ctx.sql.stmts_in(sr.fq)
+    dele = [s_ for s_ in stmts if s_.kind == "DELETE" and ("DELETE", "step_resource", None, None) in s_.writes]
+    ins = [s_ for s_ in stmts if s_.kind == "INSERT" and any(w[0] == "INSERT" and w[1] == "step_resource" for w in s_.writes)]
+    top = {id(st_.value) for st_ in sr.node.body if isinstance(st_, ast.Expr)}
+    ctx.check(len(dele) == 1 and id(dele[0].site.call) in top and "node = ?" in re.sub(r"\s+", " ", dele[0].text).replace(" . ", "."), sr.fq, "the step's old claims are deleted unconditionally", "claims of the previous declaration survive a re-declaration", "DELETE FROM step_resource WHERE node = ?", where=ctx.where_of(sr))
+    ctx.check(len(ins) == 1 and ins[0].site.lineno > (dele[0].site.lineno if dele else 0), sr.fq, "the declared claims are inserted after the delete", "declared claims are not stored", "INSERT INTO step_resource")
+    callers = sorted({cs.caller.fq for sites in ctx.cg.sites.values() for cs in sites if callee_name(cs.node) == "set_resources"})
+    ctx.check({"workflow.Workflow.define_step", "step.Step.after_recycle"} <= set(callers), "step.Step.set_resources", "both declaration paths (new row, full recycle) store the claims", f"callers: {callers}", "define_step and after_recycle")
+
+
 RULES = [
+    Rule("R-C12-7", "resource claims are replaced on declaration", rule_claims_replaced, min_instances=3),
     Rule("R-C12-1", "tasks start only inside the slot budget", rule_slots, min_instances=8),
     Rule("R-C12-2", "commands are launched only inside the budget", rule_commands_in_budget, min_instances=10),
     Rule("R-C12-3", "resource check-then-claim is atomic and exact", rule_resources, min_instances=8),
@@ -244,6 +263,8 @@ RULES = [
 ]
 
 MUTANTS = [
+    Mutant("old-claims-kept", "step.py", in_function("Step.set_resources", replace_once('        self.db.execute("DELETE FROM step_resource WHERE node = ?", (self.i,))\n', "")), ("R-C12-7",)),
+    Mutant("claims-not-stored", "step.py", in_function("Step.set_resources", replace_once('        self.db.executemany("INSERT INTO step_resource VALUES (?, ?, ?)", rows)\n', "")), ("R-C12-7",)),
     Mutant("recycle-clears-hold", "step.py", in_function("Step.after_recycle", replace_once('"UPDATE step SET need = ?, shell = ? WHERE node = ?"', '"UPDATE step SET need = ?, shell = ?, _holding = 0 WHERE node = ?"')), ("R-C12-5",)),
     Mutant("release-unguarded", "step.py", in_function("Step.release", replace_once("WHERE node = ? AND _holding > 0 ", "WHERE node = ? ")), ("R-C12-5",)),
     Mutant("reset-hold-always", "step.py", replace_once("WHEN NEW.state != {StepState.RUNNING.value} AND NEW._holding != 0", "WHEN NEW._holding != 0"), ("R-C12-5",)),
